@@ -29,6 +29,9 @@ def run_C20(ctx, rep):
     agg_rules.check_L9(ctx, rep, ['c_rel_no_index'])
     rep.floor('L9', 2, 'shard indexing in CRelNoIndex')
     lib_rules.check_L27(ctx, rep)
+    # the shard amount depends on the pool that was current at the first parallel construction: a sampled emptiness test makes
+    # the result depend on it
+    lib_rules.check_L13(ctx, rep)
 
 
 def run_C10(ctx, rep):
